@@ -449,6 +449,185 @@ def real_tables(env):
     return out
 
 
+# ----------------------------------------------------------------------------- the registry itself (ErrorProfile class)
+REG_KINDS = ["empty", "obsdup", "sampdup", "obssize", "Zed", "a b", "all", "kind\u00e9", "obs", "sampdup2"]
+
+
+class RegItem:
+    def __init__(self, trig):
+        self.trig = set(trig)
+
+
+def run_registry(ctx, ops, tags=("registry",)):
+    """run a sequence of calls against a fresh biom.err.ErrorProfile() and have every step judged by Reg.holdsStep"""
+    import biom.err as E
+    from biom.exception import TableException
+    prof = E.ErrorProfile()
+    calls = []
+    cbs = {}
+
+    def mk(i):
+        def cb(item):
+            calls.append(i)
+        cb.cb_id = i
+        return cb
+    for i in (1, 2, 3):
+        cbs[i] = mk(i)
+
+    def snap():
+        out = []
+        for k, r in prof.state.items():
+            f = prof._profile[k]["call"]
+            out.append([k, r, getattr(f, "cb_id", 0)])
+        return out
+    steps = []
+    for op in ops:
+        before = snap()
+        o = op["op"]
+        try:
+            if o == "register":
+                k = op["kind"]
+                prof.register(k, "MSG:" + k, op["reaction"], (lambda item, k=k: k in item.trig),
+                              callback=cbs.get(op["cb"]), exception=TableException)
+                res = {"res": "ok"}
+            elif o == "unregister":
+                pr, fn, st = prof.unregister(op["kind"])
+                res = {"res": "removed", "reaction": st, "cb": getattr(pr["call"], "cb_id", 0)}
+            elif o == "setState":
+                prof.state = dict((k, v) for k, v in op["kw"])
+                res = {"res": "ok"}
+            elif o == "setcall":
+                old = prof.setcall(op["kind"], cbs[op["cb"]])
+                res = {"res": "cb", "cb": getattr(old, "cb_id", 0)}
+            elif o == "getcall":
+                res = {"res": "cb", "cb": getattr(prof.getcall(op["kind"]), "cb_id", 0)}
+            elif o == "contains":
+                res = {"res": "bool", "value": bool(op["kind"] in prof)}
+            elif o == "test":
+                del calls[:]
+                buf = io.StringIO()
+                old_stdout = E.stdout
+                E.stdout = buf
+                try:
+                    with warnings.catch_warnings(record=True) as w:
+                        warnings.simplefilter("always")
+                        ret = prof.test(RegItem(op["trig"]), *op["args"])
+                finally:
+                    E.stdout = old_stdout
+                def kind_of(msg):
+                    msg = str(msg).strip()
+                    return msg[4:] if msg.startswith("MSG:") else "?" + msg
+                if isinstance(ret, Exception):
+                    res = {"res": "ev", "ev": "raised", "kind": kind_of(ret.args[0] if ret.args else "")}
+                elif w:
+                    res = {"res": "ev", "ev": "warned", "kind": kind_of(w[0].message)}
+                elif buf.getvalue():
+                    res = {"res": "ev", "ev": "printed", "kind": kind_of(buf.getvalue())}
+                elif calls:
+                    # which kind the callback answered for is not observable from the callback: taken from the cb id
+                    kk = [k for k, r, c in before if c == calls[0] and r == "call" and k in op["trig"]]
+                    res = {"res": "ev", "ev": "called", "kind": kk[0] if len(kk) == 1 else "?", "cb": calls[0]}
+                    if len(kk) > 1:
+                        res = None
+                else:
+                    res = {"res": "ev", "ev": "quiet"}
+            else:
+                raise AssertionError(o)
+        except KeyError:
+            res = {"res": "keyError"}
+        except TypeError:
+            res = {"res": "typeError"}
+        if res is None:
+            ctx.count("registry:ambiguous-callback-skipped")
+            return None
+        steps.append({"before": before, "op": op, "res": res, "after": snap()})
+        ctx.count("registry:op=%s:%s" % (o, res["res"] if res["res"] != "ev" else res["ev"]))
+    case = {"reg": steps}
+    ctx.case({"reg_ops": ops}, nontrivial=len(ops) >= 3)
+    r = ctx.driver.ask(case)
+    if not r["holds"]:
+        ctx.fail(case, "C20.Reg.holdsStep", tuple(tags) + (str(r.get("clause")),), detail={"model": r["model"]})
+    elif not r["agree"]:
+        ctx.diverge(case, "registry answers differ from the model", tags, detail={"model": r["model"]})
+    return r
+
+
+def gen_reg_ops(rng, n):
+    ops = []
+    live = []
+    for _ in range(n):
+        c = rng.random()
+        pool = REG_KINDS
+        k = rng.choice(live) if live and rng.random() < 0.7 else rng.choice(pool)
+        if c < 0.3 or not live:
+            r = rng.choice(REACTIONS) if rng.random() < 0.9 else rng.choice(["Raise", "", "ignored", "all"])
+            ops.append({"op": "register", "kind": k, "reaction": r, "cb": rng.choice([0, 0, 1, 2, 3])})
+            if k not in live and r in REACTIONS:
+                live.append(k)
+        elif c < 0.4:
+            ops.append({"op": "unregister", "kind": k})
+            if k in live:
+                live.remove(k)
+        elif c < 0.55:
+            kw = []
+            for kk in rng.sample(pool, rng.randint(1, 3)) if rng.random() < 0.4 else rng.sample(live, min(len(live), rng.randint(1, 3))):
+                kw.append([kk, rng.choice(REACTIONS) if rng.random() < 0.9 else "bogus"])
+            if rng.random() < 0.2:
+                kw.insert(rng.randint(0, len(kw)), ["all", rng.choice(REACTIONS) if rng.random() < 0.85 else "zzz"])
+            seen = set()
+            kw = [x for x in kw if not (x[0] in seen or seen.add(x[0]))]
+            ops.append({"op": "setState", "kw": kw})
+        elif c < 0.63:
+            ops.append({"op": "setcall", "kind": k, "cb": rng.choice([1, 2, 3])})
+        elif c < 0.68:
+            ops.append({"op": "getcall", "kind": k})
+        elif c < 0.72:
+            ops.append({"op": "contains", "kind": k})
+        else:
+            trig = rng.sample(pool, rng.randint(0, 4))
+            if live and rng.random() < 0.7:
+                trig = list(set(trig + rng.sample(live, min(len(live), rng.randint(1, 3)))))
+            m = rng.random()
+            if m < 0.6:
+                args = []
+            elif m < 0.9:
+                args = rng.sample(live, rng.randint(1, len(live))) if live else []
+                if args and rng.random() < 0.2:
+                    args.append(rng.choice(args))
+            else:
+                args = rng.sample(pool, rng.randint(1, 3))
+            ops.append({"op": "test", "trig": sorted(trig), "args": args})
+    return ops
+
+
+def registry_stream(ctx):
+    # fixed: the seven kinds of the module in their registration order, every pair of kinds firing together under
+    # every pair of reactions (the kind that sorts first decides), restricted by *args, a kind registered twice,
+    # an unknown reaction, register/unregister round trip
+    base = [{"op": "register", "kind": k, "reaction": r, "cb": 0} for k, r in
+            (("empty", "ignore"), ("obssize", "raise"), ("sampsize", "raise"), ("obsdup", "raise"), ("sampdup", "raise"),
+             ("obsmdsize", "raise"), ("sampmdsize", "raise"))]
+    kinds7 = [b["kind"] for b in base]
+    for a, b in itertools.combinations(kinds7, 2):
+        for ra, rb in (("raise", "warn"), ("ignore", "raise"), ("print", "call"), ("call", "print"), ("warn", "ignore")):
+            run_registry(ctx, base + [{"op": "setcall", "kind": a, "cb": 1}, {"op": "setcall", "kind": b, "cb": 2},
+                                      {"op": "setState", "kw": [[a, ra], [b, rb]]},
+                                      {"op": "test", "trig": sorted([a, b]), "args": []},
+                                      {"op": "test", "trig": sorted([a, b]), "args": [b]},
+                                      {"op": "test", "trig": sorted([a, b]), "args": [b, a]}], ("registry", "pairs"))
+    run_registry(ctx, base + [{"op": "register", "kind": "empty", "reaction": "warn", "cb": 0},
+                              {"op": "register", "kind": "new", "reaction": "explode", "cb": 0},
+                              {"op": "register", "kind": "new", "reaction": "call", "cb": 2},
+                              {"op": "test", "trig": ["new"], "args": []},
+                              {"op": "unregister", "kind": "new"}, {"op": "unregister", "kind": "new"},
+                              {"op": "test", "trig": ["new"], "args": []},
+                              {"op": "setState", "kw": [["all", "print"], ["new", "raise"]]},
+                              {"op": "test", "trig": ["sampdup"], "args": []}], ("registry", "fixed"))
+    n = 400 if ctx.quick() else 20000
+    for _ in range(n):
+        run_registry(ctx, gen_reg_ops(ctx.rng, ctx.rng.choice([3, 5, 8, 12])), ("registry", "random"))
+
+
 def run(ctx):
     env = Env()
     kinds = env.kinds
@@ -764,6 +943,7 @@ def run(ctx):
                 ob["ev"]["kind"] = fk[0] if fk else "?"
             ctx.count("site=" + label.split("-")[0])
             check_prog(ctx, env, prog, ("real-table", "site:" + label), obs={"op": "seq", "a": oa, "b": ob})
+    registry_stream(ctx)
     # random nested programs
     n = 2500 if ctx.quick() else 120000
     depth_choices = [1, 2, 2, 3, 3, 4] if ctx.quick() else [2, 3, 3, 4, 5, 6, 8]
@@ -786,5 +966,8 @@ def run(ctx):
 def replay(ctx, rec):
     env = Env()
     case = rec["case"]
+    if "reg" in case:
+        run_registry(ctx, [st["op"] for st in case["reg"]], ("replay",))
+        return
     check_prog(ctx, env, case["prog"], ("replay",), prelude=case.get("prelude"))
     env.reset()
